@@ -110,7 +110,7 @@ fn k_eu_semiring_small_int() {
 }
 
 #[kani::proof]
-fn k_eu_semiring_small_int_mul() {
+fn k_eu_mulassoc_small_int() {
     let (a, b, c) = (ExpectedUtility(tiny_int(), tiny_int()), ExpectedUtility(tiny_int(), tiny_int()), ExpectedUtility(tiny_int(), tiny_int()));
     assert!((a * b) * c == a * (b * c));
     assert!(a * (b + c) == (a * b) + (a * c));
@@ -131,7 +131,7 @@ fn k_complex_small_int() {
 }
 
 #[kani::proof]
-fn k_complex_small_int_mul() {
+fn k_complex_mulassoc_small_int() {
     use rsdd::util::semirings::Complex;
     let mk = || Complex { re: tiny_int(), im: tiny_int() };
     let (a, b, c) = (mk(), mk(), mk());
